@@ -162,6 +162,10 @@ def named():
         'the except name is read in the decorator of a class that is the first statement of the handler', ties=[[0, 2], [1, 3]])
     add('for_first_decorated', [('for', [0], [], [('def', 1, [], [R(2)], None, [('pass',)]), X(3)], [])],
         ties=[[0, 2], [1, 3]])
+    add('class_lambda_noparam', [A(0), ('class', 1, [], [], [], [A(2), ('expr', [('lam', [], R(3), True)]), ('assign', 'simple', [4], [('lam', [], R(5), False)])])],
+        'a parameterless lambda written directly in a class body reads a name the class has bound', ties=[[0, 2, 3, 5], [1, 4]])
+    add('def_lambda_noparam', [A(0), ('def', 1, [], [], None, [A(2), ('expr', [('lam', [], R(3), True)]), X(4)]), ('call', 5)],
+        ties=[[0, 2, 3, 4], [1, 5]])
     add('comp_in_class', [('class', 0, [], [], [], [A(1), ('expr', [('comp', 'list', [([2], R(3), [])], R(4))])])])
     return S
 
